@@ -4,7 +4,7 @@ cd "$(dirname "$0")/.."
 names="$@"; [ -z "$names" ] && names=$(ls seeded | grep -v INDEX)
 for n in $names; do
   prop=${n%%-*}
-  if [[ "$n" == *-2 ]]; then wt=/tmp/seed2/$prop; elif [[ "$n" == *-3 ]]; then wt=/tmp/seed3/$prop; else wt=/tmp/seed/$prop; fi
+  if [[ "$n" == *-2 ]]; then wt=/tmp/seed2/$prop; elif [[ "$n" == *-3 ]]; then wt=/tmp/seed3/$prop; elif [[ "$n" == *-4 ]]; then wt=/tmp/seed4/$prop; else wt=/tmp/seed/$prop; fi
   [ -d "$wt" ] || { echo "$n: no worktree"; continue; }
   echo "== $n"
   tools/eval_seed.py $wt $prop --save $n 2>&1 | egrep "exit " | cut -c1-160
